@@ -135,6 +135,29 @@ def run(ctx, out):
             except Exception as e:  # noqa
                 out.b_fail.append({"signature": "C07:printed-path-does-not-parse", "case": case, "text": txt[1], "error": type(e).__name__})
         out.count("print:" + txt[0])
+    # every option that writes to the working graph, combined with sparql_mode: rejected, skipped — never applied to the data graph
+    import pyshacl
+    from rdflib.namespace import RDFS
+    wsg = Graph()
+    wsg.parse(data="""@prefix sh: <http://www.w3.org/ns/shacl#> . @prefix ex: <http://ex.test/> . @prefix rdfs: <http://www.w3.org/2000/01/rdf-schema#> .
+        ex:WS a sh:NodeShape ; sh:targetClass ex:C0 ; sh:class ex:C1 ;
+          sh:rule [ a sh:TripleRule ; sh:subject sh:this ; sh:predicate ex:derived ; sh:object ex:C1 ] .""", format="turtle")
+    wont = Graph()
+    wont.add((EX.C0, RDFS.subClassOf, EX.C1))
+    for kw in ({"inference": "rdfs"}, {"inference": "owlrl"}, {"ont_graph": wont}, {"advanced": True}, {"advanced": True, "iterate_rules": True},
+               {"inplace": True}, {"advanced": True, "inplace": True}, {"inference": "rdfs", "advanced": True}):
+        wdg = graph_from_triples([(NODES[0], RDF.type, EX.C0), (NODES[1], RDF.type, EX.C0), (EX.C0, RDFS.subClassOf, EX.C2)])
+        before = frozenset(wdg)
+        out.evaluations += 1
+        try:
+            pyshacl.validate(wdg, shacl_graph=wsg, sparql_mode=True, **kw)
+            outcome = "returned"
+        except Exception as e:  # noqa
+            outcome = type(e).__name__
+        out.count("sparql_mode+writer:" + outcome)
+        if frozenset(wdg) != before:
+            out.b_fail.append({"signature": "C07:data-graph-written-in-sparql-mode", "case": {"options": {k: str(v)[:40] for k, v in kw.items()}, "outcome": outcome,
+                               "added": sorted(str(t) for t in frozenset(wdg) - before)[:5]}})
     for i, (label, sg, dg0) in enumerate(cases):
         variant = i % 4
         dg = bind_variant(dg0, variant)
